@@ -168,6 +168,53 @@ def run(tier: str, replay=None) -> int:
                          "reproduce": "replace rzilcompiler.Parser.Pool by functools.partial(multiprocessing.Pool, pool_size) and call Parser.parse(dict(tasks)); compare with in-process parsing of each part"})
         if replay:
             break
+        # a second call in the same process after the caller changed its table IN PLACE (same list objects): the result must be
+        # that of the table as it is now
+        if rd in (0, 2):
+            tasks2 = tasks
+            keys = list(tasks2)
+            edits = []
+            for nm in rng.sample(keys, min(6, len(keys))):
+                kind = rng.choice(["replace", "break", "repair", "append", "drop"])
+                parts = tasks2[nm]
+                if kind == "replace":
+                    parts[0] = beh[rng.choice(short)][0]
+                elif kind == "break":
+                    parts[-1] = rng.choice(BROKEN)
+                elif kind == "repair":
+                    for j_, p_ in enumerate(parts):
+                        if table.get(p_, ("ok",))[0] == "err":
+                            parts[j_] = beh[rng.choice(short)][0]
+                elif kind == "append":
+                    parts.append(beh[rng.choice(short)][0])
+                elif kind == "drop" and len(parts) > 1:
+                    parts.pop()
+                edits.append((nm, kind))
+            for nm, parts in tasks2.items():
+                for ptxt in parts:
+                    if ptxt not in table:
+                        try:
+                            d = tree_digest(seq_parser.parse(ptxt))
+                            table[ptxt] = ("ok", ids.setdefault(d, len(ids)))
+                        except Exception as e:
+                            table[ptxt] = ("err", type(e).__name__)
+            P.Pool = functools.partial(multiprocessing.get_context("fork").Pool, psize)
+            try:
+                with rc.quiet():
+                    real2 = P.Parser.parse(tasks2)
+            finally:
+                P.Pool = P._orig_Pool
+            evals += 1
+            for nm, parts in tasks2.items():
+                pi = real2.get(nm)
+                want_err = next((table[p_][1] for p_ in parts if table[p_][0] == "err"), None)
+                got = None if pi is None else ([ids.get(tree_digest(t), -1) for t in pi.asts], pi.exception.name if pi.exception else None)
+                want = ([] if want_err else [table[p_][1] for p_ in parts], want_err)
+                if got is None or got[1] != want[1] or got[0] != want[0]:
+                    viol.append({"what": [f"second Parser.parse call after in-place edits {edits}: entry {nm} is {got}, sequential parsing of the table as it is now gives {want}"],
+                                 "pool_size": psize, "tasks": list(tasks2.items()),
+                                 "reproduce": "call Parser.parse(table), edit the listed entries of the SAME dict/list objects in place, call Parser.parse(table) again"})
+                    break
 
     def search():
         for v in viol[:3]:
